@@ -97,7 +97,63 @@ var replicaActions = []string{"start", "reload", "updatecloneinfo", "snapshot", 
 	"replacedisk", "setrebuilding", "setlogging", "create", "revert", "prepareremovedisk", "setrevisioncounter",
 	"setreplicamode", "setcheckpoint", "setreplicacounter", "nosuchaction"}
 var replicaStates = []string{"initial", "closed", "open", "dirty", "rebuilding"}
-var bodies = []string{"valid", "empty", "truncated", "wrongtypes", "big"}
+var bodies = []string{"valid", "empty", "truncated", "wrongtypes", "big", "edge1", "edge2", "edge3"}
+
+// edge bodies: well-formed JSON of the right types whose VALUES are the unusual ones — negative, zero and
+// huge numbers, numbers that are no numbers, empty names, names with a path in them, unknown enum
+// members, the names of the head and of files that do not exist
+func edgeBody(k int, action string) string {
+	num := []string{"-4096", "9223372036854775807", "0"}[k]
+	num2 := []string{"-1", "18446744073709551616", "4097"}[k]
+	name := []string{"", "../../etc/x/volume-snap-s1.img", "volume-head-003.img"}[k]
+	name2 := []string{"volume-snap-nosuch.img", "s1", "volume-snap-s3.img"}[k]
+	mode := []string{"", "rw", "INIT"}[k]
+	switch action {
+	case "snapshot":
+		return fmt.Sprintf(`{"name":%q,"usercreated":true,"created":""}`, name)
+	case "removedisk", "prepareremovedisk":
+		return fmt.Sprintf(`{"name":%q}`, []string{name, name2, "volume-head-003.img"}[k])
+	case "replacedisk":
+		return fmt.Sprintf(`{"target":%q,"source":%q}`, name2, name)
+	case "revert":
+		return fmt.Sprintf(`{"name":%q,"created":"t"}`, []string{name, name2, "volume-head-003.img"}[k])
+	case "resize":
+		return fmt.Sprintf(`{"name":"v","size":%q}`, []string{num, num2, "12Q"}[k])
+	case "create":
+		return fmt.Sprintf(`{"size":%q}`, []string{num, num, num2}[k])
+	case "setrebuilding":
+		return `{"rebuilding":false}`
+	case "setreplicamode":
+		return fmt.Sprintf(`{"mode":%q}`, mode)
+	case "setrevisioncounter", "setreplicacounter":
+		return fmt.Sprintf(`{"counter":%q}`, []string{num2, num, "seven"}[k])
+	case "setcheckpoint":
+		return fmt.Sprintf(`{"snapshotName":%q}`, []string{name, name2, "volume-head-003.img"}[k])
+	case "start":
+		return fmt.Sprintf(`{"Action":%q}`, []string{"", "stop", "START"}[k])
+	case "updatecloneinfo":
+		return fmt.Sprintf(`{"snapname":%q,"revisioncounter":%q}`, []string{"", "nosuch", "s1"}[k], num2)
+	case "setlogging":
+		return `{"logtofile":{"enable":true,"maxlogfilesize":-1,"retentionperiod":-1,"maxbackups":-1}}`
+	case "c-start":
+		return []string{`{"replicas":[]}`, `{"replicas":["", "tcp://:0", "notanaddress"]}`, wip(`{"replicas":["tcp://127.%W%.9.9:9502","tcp://127.%W%.9.9:9502"]}`)}[k]
+	case "c-snapshot", "c-deleteSnapshot", "c-revert":
+		return fmt.Sprintf(`{"name":%q}`, []string{"", "../x", "volume-head-001.img"}[k])
+	case "c-resize":
+		return fmt.Sprintf(`{"name":%q,"size":%q}`, []string{"", "v", "w"}[k], []string{"-1", "99999999999999999999", "1Q"}[k])
+	case "c-register":
+		return []string{`{"Address":"","UUID":"","RevCount":"-1","RepType":"","RepState":""}`,
+			wip(`{"Address":"127.%W%.9.1","UUID":"other","RevCount":"99999999999999999999","RepType":"quorum","RepState":"rebuilding"}`),
+			wip(`{"Address":"127.%W%.9.8","UUID":"u1","RevCount":"x","RepType":"Backend","RepState":"open"}`)}[k]
+	case "c-replica":
+		return fmt.Sprintf(`{"address":%q}`, []string{"", "tcp://", wip("tcp://127.%W%.9.1:9502")}[k])
+	case "c-update":
+		return fmt.Sprintf(`{"mode":%q}`, mode)
+	case "c-timeout":
+		return fmt.Sprintf(`{"timeout":%q}`, []string{"-5", "99999999999999999999", "soon"}[k])
+	}
+	return `{}`
+}
 
 // every worker process uses its own loopback addresses for the fake replica endpoints
 func wip(s string) string {
@@ -170,6 +226,8 @@ func body(class, action string) io.Reader {
 		return strings.NewReader(v[:len(v)/2])
 	case "wrongtypes":
 		return strings.NewReader(`{"name":12,"size":{"a":1},"usercreated":"x","rebuilding":"y","mode":[1],"counter":5,"replicas":"q","address":7,"Address":{},"timeout":3,"snapshotName":9,"target":1,"source":2,"Action":4}`)
+	case "edge1", "edge2", "edge3":
+		return strings.NewReader(edgeBody(int(class[4]-'1'), action))
 	case "big":
 		return io.MultiReader(strings.NewReader(`{"name":"`), bytes.NewReader(bytes.Repeat([]byte("a"), 1<<20)), strings.NewReader(`"}`))
 	}
@@ -184,6 +242,9 @@ func matrix(rng *rand.Rand, extra int) []reqSpec {
 		for _, a := range replicaActions {
 			out = append(out, reqSpec{"replica", st, "POST", "/v1/replicas/1?action=" + a, "valid", a})
 			out = append(out, reqSpec{"replica", st, "POST", "/v1/replicas/1?action=" + a, bodies[1+i%4], a})
+			for _, e := range []string{"edge1", "edge2", "edge3"} {
+				out = append(out, reqSpec{"replica", st, "POST", "/v1/replicas/1?action=" + a, e, a})
+			}
 			i++
 		}
 		for _, g := range []string{"/v1/replicas", "/v1/replicas/1", "/v1/replicas/1/volusage", "/v1/stats", "/v1/rebuildinfo", "/ping", "/v1", "/v1/schemas", "/v1/replicas/zz", "/nosuch"} {
